@@ -62,6 +62,12 @@ def run(ctx):
             shapes.setdefault(shape_of(o), raw)
         for shp, raw in sorted(shapes.items(), key=lambda kv: repr(kv[0])):
             analyse(ctx, repo, ci, fb, raw, fam)
+            # the same shape with its variable-length byte fields at the boundaries of their one-octet / two-octet length
+            # fields (the property quantifies over addresses of 0..255 octets and texts of 0..200 UCS-2 characters)
+            if ci is tms:
+                for attr, lengths in (("address", (127, 128, 255)), ("message", (254, 256, 400))):
+                    for L in lengths:
+                        analyse(ctx, repo, ci, fb, raw, {}, variant=(attr, L))
     for name, need in (("TextMessagingService", 3), ("AutomaticRegistrationService", 4)):
         ctx.coverage("shape/coverage", name, fam.get(name, 0), need, f"{fam.get(name, 0)} shapes analysed, {need} confirmed by hand", "")
     non_ascii(ctx, repo, ars)
@@ -84,13 +90,22 @@ def ctor_flags(repo, ci):
     return out
 
 
-def analyse(ctx, repo, ci, fb, raw, fam, concrete=()):
+def analyse(ctx, repo, ci, fb, raw, fam, concrete=(), variant=None):
     I = Interp(repo)
     I.exact_enum_folding = True   # FailureReason folds undefined values: decided exactly over the 7 value bits
+    if variant is not None:
+        # only shapes that carry a non-empty value of that field have the variant
+        probe = explore(lambda st: (setattr(I, "st", st), I.call(fb, [raw], {}))[1], max_paths=4)
+        o_ = probe[0][1][1] if len(probe) == 1 and probe[0][1][0] == "ok" else None
+        cur = o_.attrs.get(variant[0]) if isinstance(o_, AObj) else None
+        if not isinstance(cur, (bytes, bytearray, ABits)) or not len(cur if not isinstance(cur, ABits) else cur.items):
+            return
 
     def run_s(st):
         I.st = st
         o = I.call(fb, [raw], {})
+        if variant is not None:
+            o.attrs[variant[0]] = bytes(variant[1])
         sy = Symboliser(I)
         # TMS derives the first header's has_more_headers flag while serialising (whatever the object held before must not
         # matter): there the flag is an ordinary symbolic field; ARS serialises according to the flag, so it selects the shape
@@ -114,7 +129,7 @@ def analyse(ctx, repo, ci, fb, raw, fam, concrete=()):
         if blame in concrete or len(concrete) > 4:
             raise AnalysisError(f"shape {ci.name} {raw[:12].hex()}: path explosion on field {blame}")
         ctx.info(f"shape {ci.name} {raw[:8].hex()}: field {blame} kept concrete (the reader branches on its content)")
-        return analyse(ctx, repo, ci, fb, raw, fam, tuple(concrete) + (blame,))
+        return analyse(ctx, repo, ci, fb, raw, fam, tuple(concrete) + (blame,), variant=variant)
     fam[ci.name] = fam.get(ci.name, 0) + 1
     hdr = None
     bad_f, bad_r, bad_l, crashes = [], [], [], []
@@ -176,7 +191,7 @@ def analyse(ctx, repo, ci, fb, raw, fam, concrete=()):
         if isinstance(ln, int) and ln != nbytes:
             bad_l.append(f"len(pdu) = {ln}, {nbytes} octets produced")
     pt = hdr.attrs.get("pdu_type") if isinstance(hdr, AObj) else None
-    key = f"{ci.name}[{getattr(pt, 'name', pt)}] | capture {raw[:6].hex()}… {len(raw)} octets"
+    key = f"{ci.name}[{getattr(pt, 'name', pt)}] | capture {raw[:6].hex()}… {len(raw)} octets" + (f" | {variant[0]} of {variant[1]} octets" if variant else "")
     ctx.ob("shape/no-crash", key, not crashes, "; ".join(sorted(set(crashes))[:2]) or f"{n_paths} path(s)", fb.loc)
     ctx.ob("shape/roundtrip-fields", key, not bad_f and n_paths > 0, f"{n_paths} path(s), {n_fields} symbolic fields; " + ("; ".join(sorted(set(bad_f))[:3]) or "all restored"), fb.loc)
     ctx.ob("shape/reencode", key, not bad_r and n_paths > 0, "; ".join(sorted(set(bad_r))[:2]) or "identical", fb.loc)
